@@ -41,6 +41,15 @@ PROPS = {
                     "mock staking keeper supplies TotalBondedTokens in the pure family",
                     "position of the decorator in the ante chain: fact table from app/ante.go"],
     },
+    "C05": {
+        "props_module": "LayerModel.Props.C05",
+        "families": [("ledgerslash", 64, 1500, "chain"), ("ledgersettle", 48, 1000, "chain")],
+        "gen": ["facts", "formulas"],
+        "rule": "ledgerslash / ledgersettle: histories in which the dispute module's balance changed in at least two blocks (stake was escrowed, returned or paid out); distinct = distinct histories",
+        "level_text": "Theorems over every sequence of stake taken for disputes or fees (pool and ledger drop by the recorded parts), stake or rewards put back (coins enter a pool, the ledger grows by the truncated per-entry amounts) and ordinary staking operations: the pools never hold less than validators and unbonding entries record, the surplus never shrinks and grows by at most one smallest unit per returned entry. Tie: the two dispute chain families (reports, redelegation and undelegation between report and dispute, validators leaving the bonded set, every category and fee pattern incl. fee from stake, all outcomes, refunds to stake, returns to jailed or removed validators) with, after every block: pool balances against the sum of validator tokens and unbonding balances per pool, the staking module's own NonNegativePower / PositiveDelegation / DelegatorShares invariants evaluated on the real store, and the surplus monotonicity of the model; the per-backer record sums are checked by C11's monitors on the same histories.",
+        "level_note": "Trusted: Lean kernel; model Chain/Ledger.lean (two numbers and three operations: the theorem is about the bookkeeping discipline; that each code site follows it is decided by the monitors over generated histories, not by a proof about the Go code). Validator slashing for downtime/double signing does not occur in the harness (all validators sign).",
+        "trusted": ["model Chain/Ledger.lean", "harness chain_test.go, fam_slash_test.go, fam_settle_test.go"],
+    },
     "C06": {
         "props_module": "LayerModel.Props.C06",
         "families": [("median", 6000, 300000), ("mode", 3000, 100000)],
@@ -160,6 +169,15 @@ PROPS = {
         "level_text": "Theorems: storing under a fresh key appends to that query's chronological list and changes no other entry; sequence numbers grow by one; timestamps stay strictly increasing when block times do; flagging changes only the flag and never clears it; 'current' is the last entry, 'by index' the i-th, 'data before T' the latest unflagged entry strictly before T (maximality proved from the ordering invariant), 'timestamp before/after T' the greatest below / least above T. Tie: the oracle model must reproduce the real Aggregates collection after every block (incl. bridge withdrawals and flags from funded disputes and evidence); the real getters are probed at timestamps before/between/equal/after stored ones and at indexes in and out of range and compared with the model; an implementation-only monitor checks that consecutive dumps differ only by appended entries and raised flags.",
         "level_note": "Trusted: Lean kernel; model Chain/Oracle.lean; strictly increasing block time is an assumption (CometBFT); the bridge snapshot's prev/next timestamps use the same two getters (GetTimestampBefore/After) whose characterisation is C08_ts_before_after.",
         "trusted": ["model Chain/Oracle.lean", "harness fam_oracle_test.go (dumps, getter probes)"],
+    },
+    "C13": {
+        "props_module": "LayerModel.Props.C13",
+        "families": [("settle", 64, 1500, "chain")],
+        "gen": ["facts", "formulas"],
+        "rule": "settle: histories (real app, one transaction per block, one disputed report) in which the dispute was executed and at least one refund or reward was paid; distinct = distinct histories",
+        "level_text": "Theorems for all amounts: LegacyDec division of whole numbers followed by truncation is integer division (divisors up to 10^18), so the burn amount is floor(fee/20) and its half floor(burn/2); execution conserves the escrow for every outcome (burn + returned to the reporter's side + refund pot + bond pot + voter reward = fees + escrowed stake, up to the one odd loya of the burn amount); a refund is exactly floor(fee*pot/feeTotal) with its 10^-6 remainder, never more than the pro-rata part; for payers whose recorded fees add up to the fee total the refunds add up to at most the pot and fall short of it by less than the number of payers; a payer record is consumed by its refund (second request finds none); a sole voter of every voting group receives the whole voter reward. Tie: the real app runs generated settlements (every category, fee paid at once / in parts / by several payers / repeatedly by one payer / from bond, votes of any subset of reporters, tippers, token holders and the team, up to three rounds, execution through the begin blocker, claims in any order, repeated and by non-parties); the model's burn amount, voter reward, refund and bond share are compared with the implementation's holdings changes, and monitors on the implementation's data check: burned at execution = supply drop, escrow outflow at execution = burn + return, refunds pro rata within two loya and never for disputes decided against, records consumed, rewards equal the pro-rata formula over the voter's recorded powers (tips at the dispute's block) and add up to at most the pot, no claim rejected for lack of funds, at most dust left in escrow after all parties claimed.",
+        "level_note": "Trusted: Lean kernel; model Chain/Settle.lean. Multi-round disputes are checked for conservation and leftover only (the refund formula with round fees in the fee total is not modelled); failed (expired, under-funded) disputes are excluded from the leftover monitor: their refund pot is FeeTotal/20 (see DESIGN.md). Payments of one payer from both balance and bond keep one record whose source flag is the last payment's.",
+        "trusted": ["model Chain/Settle.lean", "harness chain_test.go, fam_settle_test.go"],
     },
     "C14": {
         "props_module": "LayerModel.Props.C14",
